@@ -669,6 +669,8 @@ def run(ctx, tier):
     import c09
     results += c09.snapshot_source(ctx, rule='C15.snapshot-source')
     results += c12.header_extent(ctx, rule='C15.header-extent')
+    results += c05.freelist_order(ctx, rule='C15.freelist-order')
+    results += c05.no_narrowing(ctx, rule='C15.no-narrowing')
     return dict(
         results=results, stats=dict(ctx.stats),
         explanation=(
